@@ -42,7 +42,7 @@ def configs(tier):
     for p in pairs:
         out.append(dict(kind="chain", ops=list(p)))
     if tier != "quick":
-        for t in list(itertools.permutations(chain_ops[:7], 3))[::6]:
+        for t in list(itertools.permutations(chain_ops[:8], 3))[::3]:
             out.append(dict(kind="chain", ops=list(t)))
     return out
 
